@@ -5,6 +5,7 @@
 package c20
 
 import (
+	_ "embed"
 	"encoding/json"
 	"errors"
 	"fmt"
@@ -93,6 +94,20 @@ func kindsFor(op string) []string {
 
 var triggers = []string{"always", "k1", "k2", "k3", "name=foo", "name=bar"}
 
+// argTriggers: argument classes per operation. A deviant with such a trigger misbehaves only for calls whose arguments
+// fall in the class (Truncate only when shrinking, Seek only relative to the end, OpenFile only with O_EXCL, ...):
+// the suite must exercise -- and check -- each class it exercises, not merely each method.
+var argTriggers = map[string][]string{
+	"openfile":   {"arg=rdonly", "arg=wronly", "arg=rdwr", "arg=create", "arg=excl", "arg=trunc", "arg=append"},
+	"f.truncate": {"arg=neg", "arg=zero", "arg=shrink", "arg=grow"},
+	"f.seek":     {"arg=start", "arg=cur", "arg=end", "arg=negoff"},
+	"f.readat":   {"arg=negoff", "arg=off0", "arg=pastend"},
+	"f.writeat":  {"arg=negoff", "arg=off0", "arg=pastend"},
+	"f.readdir":  {"arg=all", "arg=paged"},
+	"f.read":     {"arg=empty"},
+	"f.write":    {"arg=empty"},
+}
+
 func allSpecs(trigs []string) []spec {
 	var out []spec
 	for _, op := range append(append([]string{}, fsOps...), fileOps...) {
@@ -100,9 +115,61 @@ func allSpecs(trigs []string) []spec {
 			for _, tr := range trigs {
 				out = append(out, spec{op, k, tr})
 			}
+			if len(trigs) > 1 {
+				for _, tr := range argTriggers[op] {
+					out = append(out, spec{op, k, tr})
+				}
+			}
 		}
 	}
 	return out
+}
+
+func flagClasses(flag int) []string {
+	var c []string
+	switch flag & (hackpadfs.FlagReadOnly | hackpadfs.FlagWriteOnly | hackpadfs.FlagReadWrite) {
+	case hackpadfs.FlagWriteOnly:
+		c = append(c, "wronly")
+	case hackpadfs.FlagReadWrite:
+		c = append(c, "rdwr")
+	default:
+		c = append(c, "rdonly")
+	}
+	for _, x := range []struct {
+		f int
+		n string
+	}{{hackpadfs.FlagCreate, "create"}, {hackpadfs.FlagExclusive, "excl"}, {hackpadfs.FlagTruncate, "trunc"}, {hackpadfs.FlagAppend, "append"}} {
+		if flag&x.f != 0 {
+			c = append(c, x.n)
+		}
+	}
+	return c
+}
+
+func (f *devFile) size() int64 {
+	if fi, err := f.inner.Stat(); err == nil {
+		return fi.Size()
+	}
+	return 0
+}
+
+func (f *devFile) offClasses(off int64) []string {
+	switch {
+	case off < 0:
+		return []string{"negoff"}
+	case off == 0:
+		return []string{"off0"}
+	case off > f.size():
+		return []string{"pastend"}
+	}
+	return nil
+}
+
+func emptyClass(p []byte) []string {
+	if len(p) == 0 {
+		return []string{"empty"}
+	}
+	return nil
 }
 
 // ------------------------------------------------------------------ the deviant / recording wrapper (child side)
@@ -184,8 +251,17 @@ func infoStr(fi hackpadfs.FileInfo) string {
 }
 
 // fires reports whether the deviation applies to this call of op on name.
-func (d *devFS) fires(op, name string) bool {
+func (d *devFS) fires(op, name string, args ...string) bool {
 	if d.sp.Op != op {
+		return false
+	}
+	if strings.HasPrefix(d.sp.Trigger, "arg=") {
+		// argument-class trigger: the deviation applies only to calls whose arguments fall in the class
+		for _, a := range args {
+			if a == d.sp.Trigger[4:] {
+				return true
+			}
+		}
 		return false
 	}
 	d.mu.Lock()
@@ -259,7 +335,7 @@ func (d *devFS) Open(name string) (hackpadfs.File, error) {
 }
 
 func (d *devFS) OpenFile(name string, flag int, perm hackpadfs.FileMode) (hackpadfs.File, error) {
-	fire := d.fires("openfile", name)
+	fire := d.fires("openfile", name, flagClasses(flag)...)
 	if fire && d.sp.Kind == "wrongperm" {
 		perm ^= 0o111
 	}
@@ -479,9 +555,9 @@ func (f *devFile) Stat() (hackpadfs.FileInfo, error) {
 	return fi, err
 }
 
-func (f *devFile) readLike(op string, p []byte, call func([]byte) (int, error)) (int, error) {
+func (f *devFile) readLike(op string, p []byte, args []string, call func([]byte) (int, error)) (int, error) {
 	n, err := call(p)
-	if f.d.fires(op, f.name) {
+	if f.d.fires(op, f.name, args...) {
 		switch f.d.sp.Kind {
 		case "wrongbytes":
 			if n > 0 {
@@ -504,13 +580,15 @@ func (f *devFile) readLike(op string, p []byte, call func([]byte) (int, error)) 
 	return n, err
 }
 
-func (f *devFile) Read(p []byte) (int, error) { return f.readLike("f.read", p, f.inner.Read) }
+func (f *devFile) Read(p []byte) (int, error) {
+	return f.readLike("f.read", p, emptyClass(p), f.inner.Read)
+}
 func (f *devFile) ReadAt(p []byte, off int64) (int, error) {
-	return f.readLike("f.readat", p, func(b []byte) (int, error) { return hackpadfs.ReadAtFile(f.inner, b, off) })
+	return f.readLike("f.readat", p, f.offClasses(off), func(b []byte) (int, error) { return hackpadfs.ReadAtFile(f.inner, b, off) })
 }
 
-func (f *devFile) writeLike(op string, p []byte, call func([]byte) (int, error)) (int, error) {
-	fire := f.d.fires(op, f.name)
+func (f *devFile) writeLike(op string, p []byte, args []string, call func([]byte) (int, error)) (int, error) {
+	fire := f.d.fires(op, f.name, args...)
 	var n int
 	var err error
 	switch {
@@ -543,14 +621,18 @@ func (f *devFile) writeLike(op string, p []byte, call func([]byte) (int, error))
 }
 
 func (f *devFile) Write(p []byte) (int, error) {
-	return f.writeLike("f.write", p, func(b []byte) (int, error) { return hackpadfs.WriteFile(f.inner, b) })
+	return f.writeLike("f.write", p, emptyClass(p), func(b []byte) (int, error) { return hackpadfs.WriteFile(f.inner, b) })
 }
 func (f *devFile) WriteAt(p []byte, off int64) (int, error) {
-	return f.writeLike("f.writeat", p, func(b []byte) (int, error) { return hackpadfs.WriteAtFile(f.inner, b, off) })
+	return f.writeLike("f.writeat", p, f.offClasses(off), func(b []byte) (int, error) { return hackpadfs.WriteAtFile(f.inner, b, off) })
 }
 
 func (f *devFile) Seek(off int64, whence int) (int64, error) {
-	fire := f.d.fires("f.seek", f.name)
+	seekArgs := []string{map[int]string{io.SeekStart: "start", io.SeekCurrent: "cur", io.SeekEnd: "end"}[whence]}
+	if off < 0 {
+		seekArgs = append(seekArgs, "negoff")
+	}
+	fire := f.d.fires("f.seek", f.name, seekArgs...)
 	var n int64
 	var err error
 	if fire && f.d.sp.Kind == "noop" {
@@ -573,7 +655,16 @@ func (f *devFile) Seek(off int64, whence int) (int64, error) {
 }
 
 func (f *devFile) Truncate(size int64) error {
-	fire := f.d.fires("f.truncate", f.name)
+	truncArg := "grow"
+	switch cur := f.size(); {
+	case size < 0:
+		truncArg = "neg"
+	case size == 0:
+		truncArg = "zero"
+	case size < cur:
+		truncArg = "shrink"
+	}
+	fire := f.d.fires("f.truncate", f.name, truncArg)
 	var err error
 	switch {
 	case fire && f.d.sp.Kind == "noop":
@@ -605,7 +696,11 @@ func (e devEntry) Type() hackpadfs.FileMode {
 
 func (f *devFile) ReadDir(n int) ([]hackpadfs.DirEntry, error) {
 	des, err := hackpadfs.ReadDirFile(f.inner, n)
-	if f.d.fires("f.readdir", f.name) {
+	readdirArg := "paged"
+	if n <= 0 {
+		readdirArg = "all"
+	}
+	if f.d.fires("f.readdir", f.name, readdirArg) {
 		switch f.d.sp.Kind {
 		case "dropentry":
 			if len(des) > 0 {
@@ -846,7 +941,13 @@ func onlyReadAt(conc []string) bool {
 	return len(conc) > 0
 }
 
-func sigOf(sp spec) string { return "C20:survivor:" + sp.Op + ":" + sp.Kind }
+// sigOf: a survivor is identified by operation and deviation kind; one that deviates only for an argument class also by that class.
+func sigOf(sp spec) string {
+	if strings.HasPrefix(sp.Trigger, "arg=") {
+		return "C20:survivor:" + sp.Op + ":" + sp.Kind + ":" + sp.Trigger
+	}
+	return "C20:survivor:" + sp.Op + ":" + sp.Kind
+}
 
 // TestReference: the suite accepts mem.FS (through the recording wrapper without a deviation) and os.FS, repeatedly and at
 // different parallelism settings, and its recorded behaviour is the same each time (verdict depends only on the FS).
@@ -911,9 +1012,41 @@ func runSpecs(t *testing.T, leg string, specs []spec, exhaustive bool) {
 				rec.Excluded(sig)
 				return
 			}
+			if base := "C20:survivor:" + specs[i].Op + ":" + specs[i].Kind; vf.Known(base) {
+				// the unconditional deviant is a listed survivor: its restriction to an argument class is the same finding
+				rec.Excluded(base)
+				return
+			}
 			rec.Failf(t, sig, "deviant %s changes what the suite observes in scenarios %v, yet the suite reports no failure", v.Spec, v.Differs)
 		}
+		if v.Class != "killed" && v.Class != "survivor" && expectedKilled()[specs[i].String()] {
+			// ratchet: at the pinned commit the suite's scenarios observed this deviation and rejected it. Now no scenario
+			// observes it any more: an edit to the suite dropped the scenario (or made several sub-tests run the same
+			// table row), so the behaviour is no longer covered although the sub-test names still claim it.
+			rec.NonTrivial()
+			rec.Failf(t, "C20:unexercised:"+specs[i].String(), "deviant %s was rejected by the suite at the pinned commit; now none of the suite's scenarios observes the deviation (class %s): the suite no longer exercises this behaviour", v.Spec, v.Class)
+		}
 	})
+}
+
+//go:embed expected_killed.txt
+var expectedKilledTxt string
+
+var expectedKilledOnce sync.Once
+var expectedKilledSet map[string]bool
+
+// expectedKilled: the deviants the suite rejected at the pinned commit, in every one of several runs at different
+// parallelism (tools: VERIF_ENUMERATE=1 VERIF_C20_DUMP_KILLED=<file> go test -run TestEnumerateSurvivors).
+func expectedKilled() map[string]bool {
+	expectedKilledOnce.Do(func() {
+		expectedKilledSet = map[string]bool{}
+		for _, l := range strings.Split(expectedKilledTxt, "\n") {
+			if l = strings.TrimSpace(l); l != "" && !strings.HasPrefix(l, "#") {
+				expectedKilledSet[l] = true
+			}
+		}
+	})
+	return expectedKilledSet
 }
 
 // TestCatalogue: one deviant per (operation, deviation kind), trigger "always" (quick tier).
@@ -929,6 +1062,7 @@ func TestEnumerateSurvivors(t *testing.T) {
 	}
 	specs := allSpecs(triggers)
 	byClass := map[string]int{}
+	var killed []string
 	surv := map[string][]string{}
 	var mu sync.Mutex
 	var wg sync.WaitGroup
@@ -944,6 +1078,9 @@ func TestEnumerateSurvivors(t *testing.T) {
 			v := judgeSpec(sp)
 			mu.Lock()
 			byClass[v.Class]++
+			if v.Class == "killed" {
+				killed = append(killed, sp.String())
+			}
 			if v.Class == "survivor" {
 				surv[sigOf(sp)] = append(surv[sigOf(sp)], fmt.Sprintf("%s differs in %v", sp.Trigger, v.Differs))
 			}
@@ -951,6 +1088,10 @@ func TestEnumerateSurvivors(t *testing.T) {
 		}()
 	}
 	wg.Wait()
+	if out := os.Getenv("VERIF_C20_DUMP_KILLED"); out != "" {
+		sort.Strings(killed)
+		_ = os.WriteFile(out, []byte(strings.Join(killed, "\n")+"\n"), 0o644)
+	}
 	fmt.Println("CLASSES", byClass)
 	var ks []string
 	for k := range surv {
@@ -977,6 +1118,9 @@ func TestReplayAll(t *testing.T) {
 					if nv.Class == "survivor" {
 						return sigOf(sp), fmt.Sprintf("deviant %s survives (differs in %v)", nv.Spec, nv.Differs)
 					}
+					if nv.Class != "killed" && expectedKilled()[sp.String()] {
+						return "C20:unexercised:" + sp.String(), fmt.Sprintf("deviant %s is no longer observed by any scenario (class %s)", nv.Spec, nv.Class)
+					}
 				}
 				return "", ""
 			})
@@ -987,10 +1131,14 @@ func TestReplayAll(t *testing.T) {
 func registerProbes() {
 	vf.RegisterProbePrefix("C20:survivor:", func(sig string) (bool, string) {
 		p := strings.Split(strings.TrimPrefix(sig, "C20:survivor:"), ":")
-		if len(p) != 2 {
+		if len(p) != 2 && len(p) != 3 {
 			return false, "bad signature"
 		}
-		for _, tr := range triggers {
+		trs := triggers
+		if len(p) == 3 {
+			trs = []string{p[2]}
+		}
+		for _, tr := range trs {
 			v := judgeSpec(spec{p[0], p[1], tr})
 			if v.Class == "survivor" {
 				return true, fmt.Sprintf("deviant %s passes the whole suite although scenarios %v observe it", v.Spec, v.Differs)
